@@ -208,7 +208,36 @@ def r20_10(prog: Program, rep):
            "dulwich reads b'foo' where git wrote b'\\x0cfoo'", (bad or strips or [p.node])[0].lineno)
 
 
+def r20_11(prog: Program, rep):
+    """WHAT IS WRITTEN IS WHAT THE FILE SAID.  Reading a file expands its [include]s by merging the included files' settings; a
+    read-modify-write must not copy them into the file.  Necessary condition: the mapping that write_to_file serialises is not the
+    mapping the include handling stores into (or the merged values carry a marker the writer skips)."""
+    m = prog.module(CFG_PY)
+    w = m.funcs.get("ConfigFile.write_to_file")
+    mg = m.funcs.get("ConfigFile._merge_config")
+    if w is None:
+        raise AnalysisError("ConfigFile.write_to_file not found")
+    if mg is None:
+        rep.note("R20.11: ConfigFile._merge_config not found (include handling restructured): not decided")
+        return
+    written = {norm(x.iter.func.value) for x in ast.walk(w.node) if isinstance(x, ast.For) and isinstance(x.iter, ast.Call) and isinstance(x.iter.func, ast.Attribute)
+               and x.iter.func.attr in ("items", "keys", "values") and norm(x.iter.func.value).startswith("self.")}
+    if not written:
+        raise AnalysisError("write_to_file: the mapping that is serialised not found")
+    stores = [x for x in ast.walk(mg.node) if (isinstance(x, ast.Subscript) and isinstance(x.ctx, ast.Store) and any(norm(x.value).startswith(w_) for w_ in written))
+              or (isinstance(x, ast.Call) and isinstance(x.func, ast.Attribute) and x.func.attr in ("setdefault", "update", "add", "append")
+                  and any(norm(x.func.value).startswith(w_) for w_ in written))]
+    skips = any(isinstance(x, ast.Call) and callee_name(x) == "isinstance" for x in ast.walk(w.node)) or \
+        any(isinstance(x, ast.If) and ("includ" in norm(x.test).lower() or "origin" in norm(x.test).lower()) for x in ast.walk(w.node))
+    rep.ob("R20.11", CFG_PY, mg.qual, "settings merged from included files are kept out of the mapping write_to_file serialises (or marked and skipped)",
+           not stores or skips,
+           f"_merge_config stores the included settings into {sorted(written)}, the very mapping write_to_file writes: every read-modify-write of a "
+           "config with an [include] copies the included settings into the file, where they are read a second time (multi-values doubled) and "
+           "override later changes of the included file", stores[0].lineno if stores else mg.node.lineno)
+
+
 def run(prog: Program, rep, tier="quick"):
+    rep.rule("R20.11", "what is written is what the file said: settings merged from [include]d files never reach write_to_file")
     rep.rule("R20.10", "has_section folds case like its siblings; the value reader strips only git's whitespace")
     rep.rule("R20.9", "readers undo escapes in one tokenising pass; no chained replace() un-escaping that includes the backslash escape")
     rep.rule("R20.8", "line framing by LF only: no splitlines() / argument-less split() in config.py")
@@ -514,4 +543,5 @@ def run(prog: Program, rep, tier="quick"):
     r20_8(prog, rep)
     r20_9(prog, rep)
     r20_10(prog, rep)
+    r20_11(prog, rep)
     rep.floor("R20.3", 6)
